@@ -418,3 +418,7 @@ def check(run, prog, tier):
     import rules.C02q as c02q
     import callgraph as _cg
     c02q.check(run, prog, tier, _cg.CallGraph(prog))
+
+    # ---- C02-r predefined macros are not changed by a compilation
+    import rules.C02r as c02r
+    c02r.check(run, prog, tier)
